@@ -204,6 +204,7 @@ import BGV
 #print axioms BGV.C16_removeEdge_all_copies
 #print axioms BGV.C16_removeDuplicateEdges
 #print axioms BGV.C16_dedup_restores_inv
+#print axioms BGV.C16_multi_removeDuplicateEdges
 #print axioms BGV.C16_und_removeDuplicateEdges
 #print axioms BGV.C16_und_forced_add
 #print axioms BGV.C16_weighted_removeDuplicateEdges
